@@ -99,6 +99,8 @@ class BGPPeering(BGPFactory):
 
         # reference to the BGPProtocol instance in ESTAB state
         self.estab_protocol = None
+        # connector of the outgoing connection (attempt) in progress
+        self.connector = None
 
     def buildProtocol(self, addr):
 
@@ -146,6 +148,9 @@ class BGPPeering(BGPFactory):
         :param reason: connection failed reason
         """
 
+        if connector is not self.connector:
+            # an attempt we gave up ourselves (superseded by a newer one or stopped)
+            return
         error_msg = "[%s]Client connection failed: %s" % (self.peer_addr, reason.getErrorMessage())
         self.handler.on_connection_failed(self.peer_addr, reason.getErrorMessage())
         LOG.info(error_msg)
@@ -184,6 +189,7 @@ class BGPPeering(BGPFactory):
         """BGP ManualStop event (event 2) Returns a DeferredList that
         will fire once the connection(s) have closed"""
 
+        self._abort_pending_connect()
         return self.fsm.manual_stop()
 
     def connection_closed(self, pro, disconnect=False):
@@ -245,7 +251,9 @@ class BGPPeering(BGPFactory):
 
         if self.fsm.state != bgp_cons.ST_ESTABLISHED:
 
-            connector = reactor.connectTCP(
+            # never more than one outstanding attempt: give up the previous one first
+            self._abort_pending_connect()
+            connector = self.connector = reactor.connectTCP(
                 host=self.peer_addr,
                 port=bgp_cons.PORT,
                 factory=self,
@@ -261,6 +269,12 @@ class BGPPeering(BGPFactory):
             return True
         else:
             return False
+
+    def _abort_pending_connect(self):
+        """Abort the outgoing connection attempt that is still in progress, if any."""
+        connector, self.connector = self.connector, None
+        if connector is not None and connector.state == 'connecting':
+            connector.stopConnecting()
 
     @staticmethod
     def get_tcp_md5sig(md5_str, host, port):
